@@ -84,8 +84,13 @@ fn pick_n(rng: &mut Rng, allow_wide: bool, wide_share_pct: u32, min_n: usize) ->
     let x = rng.below(100) as u32;
     let n = if allow_wide && x < wide_share_pct {
         // wide: beyond any plausible fixed channel size
+        // ... and, rarely, beyond 256
         const WIDE: [usize; 8] = [25, 33, 40, 65, 66, 129, 130, 160];
-        WIDE[rng.below(WIDE.len())]
+        if rng.chance(1, 12) {
+            [257, 300][rng.below(2)]
+        } else {
+            WIDE[rng.below(WIDE.len())]
+        }
     } else if x < wide_share_pct + 25 {
         rng.range(8, 24)
     } else {
@@ -642,7 +647,8 @@ pub fn gen_sched(rng: &mut Rng, rs: &RunSpec, prop: Prop) -> SchedParams {
         forget_64: if rs.may_forget { 4 } else { 0 },
         drop_sender_64: if rs.may_drop_sender { 4 } else { 0 },
         multi_drop: rng.chance(1, 2),
-        burst_64: [0, 0, 4, 16][rng.below(4)],
+        // wide graphs: bursts long enough to overrun any fixed-size buffer
+        burst_64: if rs.gates.len() >= 25 { [4, 16, 16, 32][rng.below(4)] } else { [0, 0, 4, 16][rng.below(4)] },
     };
     if prop == Prop::C06 {
         // the makespan oracle needs the virtual-time discipline in a good share of runs
@@ -758,7 +764,11 @@ pub fn gen_case(prop: Prop, rng: &mut Rng) -> GenCase {
             knobs.apis = apis_for(&all_fams, true);
         }
     }
-    let n = pick_n(rng, allow_wide, wide_pct, min_n);
+    let mut n = pick_n(rng, allow_wide, wide_pct, min_n);
+    if !allow_wide && rng.chance(1, 16) {
+        // histories / simultaneous runs: moderately wide graphs, too
+        n = [32, 33, 40, 65][rng.below(4)];
+    }
     let dm = pick_decl_mode(rng, conflict_bias);
     let graph = gen_graph(rng, n, dm);
     let mut runs = Vec::new();
@@ -773,8 +783,46 @@ pub fn gen_case(prop: Prop, rng: &mut Rng) -> GenCase {
         sched.push(gen_sched(rng, &rs, prop));
         runs.push(rs);
     }
+    if mode == Mode::Concurrent {
+        // the cooperative budget belongs to the task that polls all the runs: it is
+        // one setting for the whole world (and for each run's solo re-execution)
+        let coop = runs[0].coop;
+        for r in runs.iter_mut() {
+            r.coop = coop;
+        }
+    }
     GenCase {
         case: CaseSpec { graph, runs, mode },
+        sched,
+    }
+}
+
+/// Small graph + one try_* run, for the failing-subset enumeration of C07.
+pub fn gen_case_small_try(rng: &mut Rng) -> GenCase {
+    use Family::*;
+    let knobs = RunKnobs {
+        apis: apis_for(&[TryFold, TryForEach], false),
+        allow_fail: false,
+        force_fail: false,
+        allow_interrupt: false,
+        force_interrupt: false,
+        allow_limit: true,
+        limit_bias: false,
+        allow_abort: false,
+        allow_forget: false,
+        held_bias: true,
+    };
+    let n = rng.range(1, 5);
+    let dm = pick_decl_mode(rng, false);
+    let graph = gen_graph(rng, n, dm);
+    let rs = gen_run(rng, n, &knobs);
+    let sched = vec![gen_sched(rng, &rs, Prop::C07)];
+    GenCase {
+        case: CaseSpec {
+            graph,
+            runs: vec![rs],
+            mode: Mode::Single,
+        },
         sched,
     }
 }
